@@ -202,6 +202,38 @@ def apply(st: State, op: list) -> None:
                     st.vmfs[v].create_ent('b', targetname=nm.upper() if nm else 'N')
                 else:
                     e['targetname'] = 'm'
+        elif kind in ('iter_class_swap', 'iter_target_swap'):
+            # while the set is visited every original member leaves it and one new entity joins it (the set never grows): a
+            # lookup by iteration still returns the entities that joined - each exactly once - and every original member once
+            _, v, c = op
+            index = st.vmfs[v].by_class if kind == 'iter_class_swap' else st.vmfs[v].by_target
+            key = 'classname' if kind == 'iter_class_swap' else 'targetname'
+            hidx = {id(e): i for i, e in enumerate(st.h)}
+            start = [e for e in st.vmfs[v].entities if (e[key].casefold() or (None if key == 'targetname' else '')) == c]
+            joiners: list = []
+            visits: dict = {}
+            the_set = index[c]
+            detached = False
+            for e in the_set:
+                visits[id(e)] = visits.get(id(e), 0) + 1
+                if any(e is j for j in joiners):
+                    continue
+                # the joiner arrives before the member leaves, so the set is never empty (an emptied set is dropped from the mapping
+                # and replaced by a new object later: what an iterator of the dropped object returns is not demanded here)
+                joiners.append(st.vmfs[v].create_ent(c, targetname='j') if key == 'classname' else st.vmfs[v].create_ent('b', targetname=c.upper()))
+                e[key] = 'b' if key == 'classname' else 'm'
+                if index.get(c) is not the_set:
+                    detached = True
+            for what, ents in (('original member', start), ('entity that joined during the iteration', [] if detached else joiners)):
+                for e in ents:
+                    if visits.get(id(e), 0) != 1:
+                        st.problems.append(('iteration_missed_member', f'iterating {key} index {c!r} while each visited member leaves and a new one joins: '
+                                            f'an {what} was returned {visits.get(id(e), 0)} times ({len(start)} original, {len(joiners)} joined)'))
+                        break
+        elif kind == 'remove_foreign':
+            # remove_ent() of an entity that belongs to the OTHER map: tolerated as "already removed"; the entity's own map still finds it
+            e = st.h[op[1]]
+            st.vmfs[1 - vmf_of(st, e)].remove_ent(e)
         elif kind == 'iter_search_remove':
             _, v, q = op
             for e in st.vmfs[v].search(q):
@@ -249,6 +281,7 @@ class Model(bfs.Model):
                 ops.append(['adds', i])
                 ops.append(['adds_gen', i])
             ops.append(['remove', i])
+            ops.append(['remove_foreign', i])
             if present:
                 ops.append(['eremove', i])
             for c in CLASSES:
@@ -257,6 +290,8 @@ class Model(bfs.Model):
             for n in NAMES:
                 ops.append(['set', i, 'targetname', n])
             ops.append(['set', i, 'TargetName', 'm'])
+            for falsy in (0, False, 0.0):        # values are converted to text: a false-y number is the name '0' / '0.0', not a blank
+                ops.append(['set', i, 'targetname', falsy])
             ops.append(['update', i, {'targetname': 'N', 'classname': 'B'}])
             ops.append(['del', i, 'targetname'])
             ops.append(['del', i, 'TARGETNAME'])
@@ -293,6 +328,8 @@ class Model(bfs.Model):
             ops.append(['iter_target_rename', 0, None, 'n'])
             ops.append(['iter_class_grow', 0, 'a'])
             ops.append(['iter_target_grow', 0, 'n'])
+            ops.append(['iter_class_swap', 0, 'a'])
+            ops.append(['iter_target_swap', 0, 'n'])
             ops.append(['iter_search_remove', 0, 'n'])
             ops.append(['iter_search_remove', 0, 'a'])
             ops.append(['iter_search_remove', 0, 'n*'])
@@ -307,7 +344,10 @@ class Model(bfs.Model):
         for e in st.h:
             v = vmf_of(st, e)
             pos = next((i for i, x in enumerate(e.map.entities) if x is e), -1)
-            out.append((v, pos, tuple(e._keys.items())))
+            # plus every scalar attribute of the entity object other than its ID (a flag or counter kept beside the key dict is state the
+            # index logic may read: two states that differ in it do not have the same futures)
+            scal = tuple(sorted((k, repr(x)) for k, x in vars(e).items() if k != 'id' and type(x) in (bool, int, str, float, type(None))))
+            out.append((v, pos, tuple(e._keys.items()), scal))
         maps = []
         for vmf in st.vmfs:
             def ref(e):
